@@ -197,14 +197,36 @@ fn base_program(c: &Case) -> Built {
     let mut e = Ent::new(&c.entropy);
     let ntests = 1 + e.below(3);
     let banked = e.chance(1, 5);
+    // the segment the tests are in: 0 the default one; 1 one that is kept out of the output file; 2 one that is stored
+    // at another address than it runs at
+    let tests_in = if banked { 0 } else { *e.pick(&[0usize, 0, 0, 1, 2]) };
     let mut main: Vec<Stmt> = vec![];
     let mut consts = BTreeMap::new();
+    if tests_in > 0 {
+        main.push(Stmt::DefineSegment { name: "sr".into(), start: Some(Expr::hex(0xc000)), pc: None, write: None, bank: None });
+        if tests_in == 1 {
+            main.push(Stmt::DefineSegment { name: "st".into(), start: Some(Expr::hex(0xc800)), pc: None, write: Some(false), bank: None });
+        } else {
+            main.push(Stmt::DefineSegment { name: "st".into(), start: Some(Expr::hex(0x4000)), pc: Some(Expr::hex(0xc800)), write: None, bank: None });
+        }
+    }
     if banked {
         main.push(Stmt::DefineBank { name: "b0".into(), size: None, fill: None, filename: None, create_segment: None });
         main.push(Stmt::DefineBank { name: "b1".into(), size: None, fill: None, filename: Some("other.bin".into()), create_segment: None });
         main.push(Stmt::DefineSegment { name: "sa".into(), start: Some(Expr::hex(0xc000)), pc: None, write: None, bank: Some("b0".into()) });
         main.push(Stmt::DefineSegment { name: "sb".into(), start: Some(Expr::hex(0x4000)), pc: None, write: None, bank: Some("b1".into()) });
         main.push(Stmt::Segment { name: "sb".into(), block: Some(vec![Stmt::Data { size: DataSize::Byte, vals: vec![Expr::hex(0x77), Expr::hex(0x88)] }]) });
+        if e.chance(1, 2) {
+            // the other bank has code at the addresses of the tests as well, with assertions that would fail: they do
+            // not exist while a test of this bank runs
+            main.push(Stmt::DefineSegment { name: "sc".into(), start: Some(Expr::hex(0xc000)), pc: None, write: None, bank: Some("b1".into()) });
+            let mut other = vec![];
+            for _ in 0..24 {
+                other.push(Stmt::Assert { e: Expr::bin(Expr::Id { path: vec!["cpu".into(), "sp".into()], modifier: None }, BinOp::Eq, Expr::num(7)), msg: Some("an assertion of the other bank".into()) });
+                other.push(ins("nop", Form::None, None));
+            }
+            main.push(Stmt::Segment { name: "sc".into(), block: Some(other) });
+        }
     }
     main.push(Stmt::Const { name: "kexp".into(), e: Expr::num(7) });
     consts.insert("kexp".to_string(), 7);
@@ -228,7 +250,11 @@ fn base_program(c: &Case) -> Built {
             body.push(Stmt::Label { name: sname, block: None });
             body.extend(sbody);
         }
-        main.push(Stmt::Test { name: name.clone(), body });
+        if tests_in > 0 {
+            main.push(Stmt::Segment { name: "st".into(), block: Some(vec![Stmt::Test { name: name.clone(), body }]) });
+        } else {
+            main.push(Stmt::Test { name: name.clone(), body });
+        }
         tests.push(name);
     }
     crate::gen::build::separate_ambiguous(&mut main);
@@ -326,11 +352,23 @@ pub fn reference_run_mode(prog: &Program, test: &str, consts: &BTreeMap<String, 
     let mut cpu = Cpu::new(start as u16);
     // only the bank of the test's segment is loaded
     let test_bank = m.segs[seg].bank.clone();
+    // (everything of that bank: whether a segment is written to the output file does not matter to the machine, and the
+    // code of a segment with a `pc` runs at that address)
     for s in &m.segs {
         let same_bank = if banked { s.bank == test_bank } else { true };
-        if same_bank && s.touched && s.write {
+        if same_bank && s.touched {
             let (lo, hi) = s.range();
             cpu.mem[lo as usize..hi as usize].copy_from_slice(s.range_data());
+        }
+    }
+    for s in &m.segs {
+        let same_bank = if banked { s.bank == test_bank } else { true };
+        if same_bank && s.touched && s.offset != 0 {
+            let (lo, hi) = s.range();
+            let (tlo, thi) = ((lo + s.offset) as usize, (hi + s.offset) as usize);
+            if thi <= 0x10000 {
+                cpu.mem[tlo..thi].copy_from_slice(s.range_data());
+            }
         }
     }
     let mut trace: Trace = vec![];
@@ -340,7 +378,8 @@ pub fn reference_run_mode(prog: &Program, test: &str, consts: &BTreeMap<String, 
         *v += 1;
         trace.push((cpu.pc, cpu.a, cpu.x, cpu.y, cpu.sp, cpu.p, *v));
         let visit_no = *v;
-        for asr in m.asserts.iter().filter(|x| x.pc as u16 == cpu.pc) {
+        // (only the assertions of the test's own bank exist while it runs)
+        for asr in m.asserts.iter().filter(|x| x.pc as u16 == cpu.pc).filter(|x| !banked || x.seg.map(|i| m.segs[i].bank == test_bank).unwrap_or(true)) {
             if first_visit_only && visit_no > 1 {
                 continue;
             }
@@ -410,10 +449,12 @@ pub fn with_assertions(c: &Case, b: &Built) -> (Program, Vec<String>) {
                     };
                     let set = first.5 & mask != 0;
                     let id = Expr::Id { path: vec!["cpu".into(), "flags".into(), f.into()], modifier: None };
-                    if e.chance(1, 2) {
-                        (if set { id } else { Expr::Not(Box::new(id)) }, "true-at-first-visit")
-                    } else {
-                        (if set { Expr::Not(Box::new(id)) } else { id }, "false-at-first-visit")
+                    match e.below(4) {
+                        0 => (if set { id } else { Expr::Not(Box::new(id)) }, "true-at-first-visit"),
+                        1 => (if set { Expr::Not(Box::new(id)) } else { id }, "false-at-first-visit"),
+                        // a flag is 0 or 1
+                        2 => (Expr::bin(id, BinOp::Eq, Expr::num(set as i64)), "true-at-first-visit"),
+                        _ => (Expr::bin(id, BinOp::Eq, Expr::num(!set as i64)), "false-at-first-visit"),
                     }
                 }
                 5 => (Expr::bin(Expr::Pc, BinOp::Eq, Expr::hex(site.pc)), "true-at-first-visit"),
